@@ -4,13 +4,14 @@ import QipVerif.Model.SimObj
 import QipVerif.Model.SimPulse
 import QipVerif.Model.SimEdit
 import QipVerif.Model.SimLoad
+import QipVerif.Model.SimDefault
 /-! Driver for the simulator / world model (C02, C16), exact backend.
 
 Request (one line):
 `hist cfg=<copy><ccv><reset><getter><dmrefuse><copyrev><copychain><noiselocal> mode=sv|dm n=<qubits> ncb=<cbits> ops=<op;op;…> lists=<l;l;…|N>
       rng=<i,i,…|N> inits=<state/state/…> phases=<p,p,…|N> calls=<call/call/…>`
 
-* op: `g.<code>.<q,q>.<cc|N|e>.<ccv>` or `m.<target>.<store|N>`; `N` = None, `e` = empty list
+* op: `g.<code>.<q,q>.<cc|N|e>.<ccv|D>` (`D` = default value) or `m.<target>.<store|N>`; `N` = None, `e` = empty list
 * list: `0,1,1` or `e`;   state: `<k>:<v>_<v>…` with `v = a,b,c,…`
 * call: `run.<state>.<cb|N>.<mr|N|e>` · `stat.<state>.<cb|N>` · `init.<state>.<cb|N>.<mr|N|e>` ·
   `step` · `state` · `query` · `compile.<circ>.<k:v,k:v|N>` · `load.<circ>.<0|1>`
@@ -36,7 +37,8 @@ def parseOp (s : String) : Option Op :=
     let code ← String.toNat? code
     let qs ← natList? qs
     let cc ← optInts? cc
-    let ccv ← String.toInt? ccv
+    -- `D`: `classical_control_value` left at its default (Model/SimDefault.lean)
+    let ccv ← if ccv = "D" then some (match cc with | some l => defaultCcv l.length | none => 0) else String.toInt? ccv
     pure (.gate { code := code, qubits := qs, cc := cc, ccv := ccv })
   | ["m", t, st] => do
     let t ← String.toNat? t
